@@ -428,6 +428,9 @@ def direct_case(rng):
     """effects WITHOUT sampler/surface parameters whose <texture> elements name an image id (an exporter habit the loader repairs by
     making up the surface and the sampler); the same image is named by several properties and by several effects"""
     images = ['im%d' % i for i in range(rng.randint(1, 3))]
+    if rng.random() < 0.35:
+        # an image whose own id looks like the id the loader makes up for another image's surface
+        images.append(rng.choice(images) + '-surface')
     effects = []
     for e in range(rng.randint(1, 3)):
         shader = rng.choice(sorted(DIRECT_PROPS))
@@ -515,7 +518,9 @@ def direct_observe(images, effects):
     out = []
     for eid, shader, props, bump in effects:
         e = d.effects[eid]
-        ps = ','.join(('surf:' if isinstance(q, material.Surface) else 'samp:' if isinstance(q, material.Sampler2D) else 'other:') + str(q.id) for q in e.params)
+        # a made-up surface is named by the image it holds (its own id is the loader's choice: unique in the effect, checked by the oracle)
+        ps = ','.join('surf:%s-surface' % q.image.id if isinstance(q, material.Surface) else ('samp:' if isinstance(q, material.Sampler2D) else 'other:') + str(q.id)
+                      for q in e.params)
         ms = []
         for key, kind, im in props:
             if kind == 'tex':
@@ -529,7 +534,7 @@ def direct_observe(images, effects):
 def run(ctx):
     ctx.rule = ('instance_node graphs over 1-6 nodes (targets: any node incl. itself, missing ids; nested or direct; in <library_nodes> or as visual_scene roots; '
                 'definition order shuffled); docgen documents with permuted libraries / node definitions; nine kinds of dangling reference; renames of every referenced '
-                'library object before write; effects without sampler parameters whose textures name 1-3 images directly (shared between properties and effects, load and write+reload); non-trivial = graph with at least one reference / document with at least one reference; distinct by content')
+                'library object before write; effects without sampler parameters whose textures name 1-4 images directly (ids that look like made-up surface ids among them; shared between properties and effects, load and write+reload); non-trivial = graph with at least one reference / document with at least one reference; distinct by content')
     reported = set()
 
     def report(res, rep):
